@@ -4,6 +4,8 @@ package verifnd
 
 import (
 	"context"
+	"net/http"
+	"net/url"
 	"time"
 )
 
@@ -57,3 +59,13 @@ func Label(x any, label string)        { stub() }
 
 // Param returns a per-tier bound from the harness spec (concrete).
 func Param(name string, def int) int { stub(); return def }
+
+// KeyPair returns a signing key of the family of alg and its public half; keys with the same id match.
+func KeyPair(id, alg string) (priv any, pub any) { stub(); return nil, nil }
+
+// Request builds an HTTP request. form holds the body form (POST) or the query (GET);
+// basicUser/basicPass are the raw (still percent-encoded) Basic credentials; badForm makes ParseForm fail.
+func Request(method, target string, form url.Values, basicUser, basicPass string, hasBasic, badForm bool) *http.Request {
+	stub()
+	return nil
+}
